@@ -110,6 +110,32 @@ theorem exportSpikeDepths_length_fallback (fe : Option Feats) (ys : List Rat) (p
     (hno : getDepths fe ys st = none) : (exportSpikeDepths fe ys peaks st sc).length = sc.length := by
   simp [exportSpikeDepths, hno, spikeDepthsFromClusters]
 
+/-! ### listed channels of every template / cluster -/
+
+theorem exportListedChannels_length (wfs : List Mat) (pos : List (Rat × Rat)) (probes : List Nat) (ncw : Nat) :
+    (exportListedChannels wfs pos probes ncw).length = wfs.length := by
+  simp [exportListedChannels, peakChannels]
+
+theorem exportListedChannels_getD (wfs : List Mat) (pos : List (Rat × Rat)) (probes : List Nat) (ncw t : Nat)
+    (ht : t < wfs.length) :
+    (exportListedChannels wfs pos probes ncw).getD t [] =
+      nearestSameProbe pos probes ((peakChannels wfs).getD t 0) ncw := by
+  have h : t < (peakChannels wfs).length := by simp [peakChannels, ht]
+  simp [exportListedChannels, List.getD_eq_getElem?_getD, h]
+
+-- `_hpr`: the domain (one probe label per channel); the proof does not need it
+theorem listed_channels_of_waveform (wfs : List Mat) (pos : List (Rat × Rat)) (probes : List Nat)
+    (ncw t ns nc : Nat) (ht : t < wfs.length) (hrect : Rect (wfs.getD t []) ns nc) (hns : 0 < ns) (hnc : 0 < nc)
+    (hpos : pos.length = nc) (_hpr : probes.length = pos.length) :
+    IsPeakChannel (wfs.getD t []) nc ((peakChannels wfs).getD t 0) ∧
+    nearestOK pos probes ((peakChannels wfs).getD t 0) ncw
+      ((exportListedChannels wfs pos probes ncw).getD t []) = true ∧
+    (exportListedChannels wfs pos probes ncw).length = wfs.length := by
+  have hpk := (C09.Lemmas.peakChannels_spec wfs t ns nc ht hrect hns hnc).1
+  refine ⟨hpk, ?_, exportListedChannels_length wfs pos probes ncw⟩
+  rw [exportListedChannels_getD wfs pos probes ncw t ht]
+  exact Lemmas.nearest_ok pos probes _ ncw (hpos ▸ hpk.1)
+
 theorem contains_modelNanIdx (st sc : List Nat) (hlen : st.length = sc.length) (c : Nat)
     (hc : sc ≠ st → c ≤ sc.foldl max 0) :
     (modelNanIdx st sc).contains c = (decide (sc ≠ st) && !decide (c ∈ sc)) := by
